@@ -24,12 +24,22 @@ type c09Msg struct {
 	inserted [][]byte
 }
 
+// c09H is one filter handle: the real Filter, the model's view of what it
+// has loaded.
+type c09H struct {
+	f   *bloom.Filter
+	mb  model.Bloom
+	cur int // index into msgs, -1 = unloaded / no filter yet
+}
+
 type c09 struct {
-	st   *kit.Stats
-	f    *bloom.Filter
-	mb   model.Bloom
-	msgs []*c09Msg
-	cur  int // index into msgs, -1 = unloaded / no filter yet
+	st *kit.Stats
+	// up to two handles live side by side and may load the SAME message
+	// objects: state shared between Filter objects, or a handle that keeps
+	// its own copy of a message, shows up on the other handle / the message
+	hs    [2]*c09H
+	*c09H // the handle the current operation addresses
+	msgs  []*c09Msg
 
 	// generation state
 	maxSteps int
@@ -47,7 +57,9 @@ var c09Kinds = []string{"add", "addhash", "addop", "match", "matchop", "isloaded
 var c09Lens = []int{1, 1, 2, 3, 4, 7, 8, 9, 16, 31, 255, 256, 4096, 35999, 36000}
 
 func (s *c09) Start(r *kit.Rng, cfg map[string]int64) {
-	s.cur = -1
+	s.hs[0] = &c09H{cur: -1}
+	s.hs[1] = &c09H{cur: -1}
+	s.c09H = s.hs[0]
 	if r == nil {
 		return
 	}
@@ -149,6 +161,28 @@ func (s *c09) Gen(r *kit.Rng) (kit.Op, bool) {
 	if s.steps >= s.maxSteps {
 		return kit.Op{}, false
 	}
+	// which handle? the second one appears in some runs, sometimes over a
+	// message object the first one already uses
+	hi := 0
+	if s.hs[0].f != nil && (s.hs[1].f != nil || r.Chance(1, 12)) && r.Chance(1, 2) {
+		hi = 1
+	}
+	s.c09H = s.hs[hi]
+	if hi == 1 && s.f == nil && len(s.msgs) > 0 && r.Chance(1, 2) {
+		s.steps++
+		return kit.Op{K: "load_shared", H: r.Intn(len(s.msgs)), S: "1"}, true
+	}
+	op, ok := s.gen0(r)
+	if hi == 1 {
+		op.S = "1"
+	}
+	return op, ok
+}
+
+func (s *c09) gen0(r *kit.Rng) (kit.Op, bool) {
+	if s.steps >= s.maxSteps {
+		return kit.Op{}, false
+	}
 	s.steps++
 	if s.f == nil {
 		if r.Chance(1, 5) {
@@ -230,7 +264,7 @@ func (s *c09) genNewFilter(r *kit.Rng) kit.Op {
 	elems := []uint32{0, 1, 2, 3, 10, 100, 1000, 20000, 1000000, 1000000000, 0xffffffff, r.U32(), uint32(r.Range(1, 5000))}[r.Intn(13)]
 	fps := []float64{-1, 0, 1e-300, 1e-12, 1e-9, 1e-6, 0.0001, 0.01, 0.5, 0.999, 1, 1.5, math.Inf(1), math.Inf(-1), math.NaN(), r.Float(), r.Float() * r.Float() * 0.01}
 	fp := fps[r.Intn(len(fps))]
-	return kit.Op{K: "newfilter", N: []int64{int64(elems), int64(r.U32()), int64(r.Intn(3)), int64(math.Float64bits(fp))}, S: fmt.Sprint(fp)}
+	return kit.Op{K: "newfilter", N: []int64{int64(elems), int64(r.U32()), int64(r.Intn(3)), int64(math.Float64bits(fp))}}
 }
 
 func (s *c09) pickItem(r *kit.Rng) []byte {
@@ -342,11 +376,24 @@ func (s *c09) noteInsert(item []byte) {
 }
 
 func (s *c09) Apply(o kit.Op) *kit.Violation {
-	if s.f == nil && o.K != "load" && o.K != "newfilter" && o.K != "load_populated" && o.K != "load_nil" {
+	s.c09H = s.hs[0]
+	if o.S == "1" {
+		s.c09H = s.hs[1]
+		s.st.Probe("operation-on-second-handle")
+	}
+	if s.f == nil && o.K != "load" && o.K != "newfilter" && o.K != "load_populated" && o.K != "load_nil" && o.K != "load_shared" {
 		return nil // skipped: no filter yet (possible after shrinking)
 	}
 	isFault := false
 	switch o.K {
+	case "load_shared":
+		// a second Filter over a message object another handle may be using
+		if s.f != nil || o.H < 0 || o.H >= len(s.msgs) {
+			return nil
+		}
+		s.f = bloom.LoadFilter(s.msgs[o.H].real)
+		s.setCur(o.H)
+		s.st.Probe("two-filters-over-one-message")
 	case "load_nil":
 		if s.f != nil {
 			return nil
@@ -519,9 +566,6 @@ func (s *c09) Apply(o kit.Op) *kit.Violation {
 }
 
 func (s *c09) Check() *kit.Violation {
-	if s.f == nil {
-		return nil
-	}
 	for i, m := range s.msgs {
 		if !bytes.Equal(m.real.Filter, m.mod.Bits) {
 			j := 0
@@ -538,6 +582,20 @@ func (s *c09) Check() *kit.Violation {
 			return kit.V("invariant:parameters-changed", "message object %d parameters changed", i)
 		}
 	}
+	for hi, h := range s.hs {
+		if h.f == nil {
+			continue
+		}
+		s.c09H = h
+		if v := s.checkHandle(); v != nil {
+			v.Detail = fmt.Sprintf("handle %d: %s", hi, v.Detail)
+			return v
+		}
+	}
+	return nil
+}
+
+func (s *c09) checkHandle() *kit.Violation {
 	if got := s.f.IsLoaded(); got != (s.cur >= 0) {
 		return kit.V("invariant:load-state", "IsLoaded() = %v, model %v", got, s.cur >= 0)
 	}
